@@ -65,7 +65,7 @@ def check(ctx):
     gs = mb.summarize(gf, self_cls=gc)
     F = Frames(mb)
     res = fname("results_")
-    NOTHING_OUT = ("cmp", "==", ("sub", ("attr", ("param", "nonreporting_units"), "shape"), ("const", 0)), ("const", 0))
+    NOTHING_OUT = ("cmp", "==", ir.nrows(("param", "nonreporting_units")), ("const", 0))
 
     def is_shortcut(pc):
         return any(c == NOTHING_OUT and pol for c, pol in pc)
@@ -107,7 +107,7 @@ def check(ctx):
     ctx.sites("C03.R3.early", len(early), 1, "early return of the gaussian aggregate interval function")
     for pc, t, n in early:
         cond = pc[-1] if pc else None
-        okc = cond is not None and cond[1] and cond[0] == ("cmp", "==", ("sub", ("attr", ("param", "nonreporting_units"), "shape"), ("const", 0)), ("const", 0))
+        okc = cond is not None and cond[1] and cond[0] == NOTHING_OUT
         vals = []
         from ..frames import vector_value
         for x in (t[1] if t[0] == "tuple" else t[2][:2]):
